@@ -50,6 +50,9 @@ CLAIMED = {
  "C17": ("deterministic simulation: real LimitListener+Semaphore under a real http.Server, the whole real httpserver runtime reconfigured through its event channel, and the real MQTT Broker, all on the simulated network with concurrent connects/closes/resets, SetMaxConnection sequences and aborted handshakes; open-connection counting oracle evaluated at every quiescent instant",
          "Seeded search over client populations x connect/idle/close/reset patterns x cap changes (grow, shrink below usage, back-to-back) x interleavings; open <= cap whenever no adjustment is pending, no accept at or above an applied cap, no established connection dropped by a shrink, released capacity is reusable (final phase admits exactly cap fresh connections), MQTT connects beyond the cap are refused with server-unavailable.",
          "DESIGN.md §6 C17", "a takeover of a connected id at the cap is accepted both ways (statement silent)."),
+ "C18": ("deterministic simulation: 1-3 simulated cluster members, each the real cluster code (lease, concurrency.Session/Mutex through pkg/cluster/mutex.go) with its own real etcd clientv3 over gRPC on the simulated network against simetcd, plus a real api.Server per member (chi router, middlewares, object handlers) driven concurrently; critical-section overlap counter, version/fold oracle and porcupine linearizability check (map+counter model) over histories stamped with the simulator's event sequence numbers",
+         "Seeded search over contention patterns (goroutines x members x hold times) x request time-outs below/above RPC latency x faults (slow request applied after the client gave up, slow reply, refused RPC, reply lost after apply, server stop/start) x concurrent create/update/delete/get/list mixes on overlapping names; holders <= 1 at every step, a failed acquisition leaves the lock free (liveness probe once faults stop), successful mutations carry distinct gap-free versions, 409/400/404 change nothing, final listing = fold in version order, history linearizable (porcupine; inconclusive is never a violation).",
+         "DESIGN.md §6 C18", "simetcd is a single linearizable store (raft, multi-node etcd and lease expiry while holding are out of scope); three genuine findings about requests applied after the caller gave up are listed as known in known_findings.txt."),
  "C19": ("deterministic simulation: real syncer + real etcd clientv3 (watcher resume, retry) over gRPC on the simulated network against simetcd, a simulated single-copy MVCC etcd server, with write histories, watch-stream breaks, compaction cancels, server stop/start, RPC errors/latency and slow consumers; post-hoc oracle over simetcd's complete revision log",
          "Seeded search over put/delete histories under and outside the watched key/prefix x the four Sync adapters x fault sequences (stream break, fatal stream end, compaction while down, server restart, Range errors and latency, reply lost after apply, slow watch delivery) x consumer lag x interleavings; every delivered snapshot must be a state the store really had, in non-decreasing store order, consecutive ones different, and once writes and faults stop the final state must be delivered within a bounded number of quiet periods (bounded liveness).",
          "DESIGN.md §6 C19", "simetcd replaces raft+bbolt by a linearizable in-memory model (differentially tested against the repo's embedded etcd: 40 x 80 random ops, 0 mismatches); the etcd client is a copy of client/v3 v3.5.4 with one patched line (a package-level channel that would stall the bubble); four Go runtime files are overlaid for reproducible replays (harness/simetcd/README.md)."),
